@@ -115,7 +115,8 @@ def build_all(verbose=False):
         rc, log = sh([os.path.join(BUILD, "gen"), "tests", os.path.join(REPO, "jqawk_test.go"),
                       os.path.join(REPO, "testdata", "fuzz"), os.path.join(BUILD, "seeds.json")])
         # 3. Coq
-        if not os.path.exists(os.path.join(COQ, "Makefile")):
+        mk, cp = os.path.join(COQ, "Makefile"), os.path.join(COQ, "_CoqProject")
+        if not os.path.exists(mk) or os.path.getmtime(mk) < os.path.getmtime(cp):
             rc, log = sh("coq_makefile -f _CoqProject -o Makefile", cwd=COQ)
         if info["coq_ok"]:
             rc, log = sh("timeout 3000 make -k -j16 2>&1", cwd=COQ)
@@ -146,6 +147,37 @@ def build_all(verbose=False):
         info["model_ok"] = os.path.exists(os.path.join(odir, "jqmodel"))
         info["build_s"] = round(time.time() - t0, 1)
     return info
+
+
+def dep_closure(files):
+    """The files of the development (relative to theories/) that the given Props files depend on,
+    transitively, themselves included (from coq_makefile's .Makefile.d).  None when unknown."""
+    dpath = os.path.join(COQ, ".Makefile.d")
+    if not os.path.exists(dpath):
+        return None
+    deps = {}
+    for line in open(dpath):
+        if ".vo " not in line.split(":")[0] + " " or ":" not in line:
+            continue
+        lhs, rhs = line.split(":", 1)
+        tgt = [t for t in lhs.split() if t.endswith(".vo")]
+        if not tgt:
+            continue
+        key = tgt[0][len("theories/"):-1] if tgt[0].startswith("theories/") else None
+        if key is None:
+            continue
+        deps[key] = [r[len("theories/"):-1] for r in rhs.split() if r.endswith(".vo") and r.startswith("theories/")]
+    todo = [f if "/" in f else "Props/" + f for f in files]
+    seen = set()
+    while todo:
+        f = todo.pop()
+        if f in seen:
+            continue
+        seen.add(f)
+        if f not in deps:
+            return None
+        todo.extend(deps[f])
+    return seen
 
 
 def props_status(files):
